@@ -57,7 +57,12 @@ typedef struct { const uint32_t *p; size_t n; } u32sv_t;
 extern char g_buf[BUF_N], g_buf2[BUF_N];
 #define SV_VALID(v, maxn) ((v).n <= BUF_N && (v).n <= (maxn) && (v).p == g_buf + (BUF_N - (v).n))
 #define SV_VALID2(v, maxn) ((v).n <= BUF_N && (v).n <= (maxn) && (v).p == g_buf2 + (BUF_N - (v).n))
+#ifdef WITNESS   /* counterexample extraction run: every byte is an explicit assignment visible in the trace */
+#define WB_(i) g_buf[i] = nondet_char(); g_buf2[i] = nondet_char();
+#define HAVOC_BUFS do { WB_FILL } while (0)
+#else
 #define HAVOC_BUFS do { __CPROVER_havoc_object(g_buf); __CPROVER_havoc_object(g_buf2); } while (0)
+#endif
 /* the harness must *assign* the pointer (an assumed pointer equality does not inform CBMC's points-to sets) */
 #define MAKE_SV(v) do { __CPROVER_assume((v).n <= BUF_N); (v).p = g_buf + (BUF_N - (v).n); } while (0)
 #define MAKE_SV2(v) do { __CPROVER_assume((v).n <= BUF_N); (v).p = g_buf2 + (BUF_N - (v).n); } while (0)
@@ -68,6 +73,19 @@ extern char g_buf[BUF_N], g_buf2[BUF_N];
 #define MAKE_SV(v) ((void)0)
 #define MAKE_SV2(v) ((void)0)
 #endif
+
+/* harness inputs: NONDET(T, name) is an explicit nondeterministic assignment (so that it shows in CBMC traces) */
+unsigned char nondet_uchar(void); char nondet_char(void); size_t nondet_size(void); unsigned nondet_unsigned(void);
+_Bool nondet_bool(void); unsigned long nondet_u64(void); unsigned short nondet_u16(void); int nondet_int(void);
+#define NONDET_uint8_t nondet_uchar()
+#define NONDET_char nondet_char()
+#define NONDET_size_t nondet_size()
+#define NONDET_uint32_t nondet_unsigned()
+#define NONDET_uint64_t nondet_u64()
+#define NONDET_uint16_t nondet_u16()
+#define NONDET_int nondet_int()
+#define NONDET__Bool nondet_bool()
+#define NONDET(T, name) T name = NONDET_##T
 
 /* ---------------------------------------------------------------- string_view, read-only */
 static inline size_t sv_size(sv_t v) { return v.n; }
